@@ -101,7 +101,20 @@ func main() {
 		r.Analysed["module_packages"] = len(w.Pkgs)
 		r.Analysed["source_files"] = w.Files
 		r.Analysed["module_functions"] = len(w.ModFuncs)
-		ps.Run(w, r, *tier)
+		func() {
+			// a panic inside a rule is a defect of the checker, not evidence about the tree:
+			// the obligations recorded so far stand, the rest is reported as not analysed
+			defer func() {
+				if x := recover(); x != nil {
+					st := string(debug.Stack())
+					if len(st) > 1500 {
+						st = st[:1500]
+					}
+					r.add("CHECKER", "rule engine", "-", Undecided, fmt.Sprintf("checker panic while analysing this tree (%v); obligations after this point were not evaluated\n%s", x, st))
+				}
+			}()
+			ps.Run(w, r, *tier)
+		}()
 		if *tier == "thorough" && *outdir == "" {
 			thoroughExtras(w, r, id, *verif, *repo)
 		}
